@@ -126,3 +126,16 @@ def fresh_str(s):
     if s is None:
         return None
     return ''.join(list(s))
+
+
+TZS = ('UTC', 'EST5', 'JST-9')      # POSIX forms: no zoneinfo database needed
+
+
+def set_tz(k):
+    """The server process's time zone is part of the environment: shards rotate through three of them."""
+    import os
+    import time
+    tz = TZS[k % len(TZS)]
+    os.environ['TZ'] = tz
+    time.tzset()
+    return tz
